@@ -270,3 +270,5 @@ INFO = dict(
     outside=["histories longer than 3", "contexts beyond the pool", "concurrent use of one object"],
     assumptions=["weights >= 0"],
 )
+
+INFO["technique"] = 'symbolic execution of long-lived parser/LM objects over all operation histories up to length 3 (4 in thorough) with z3 real weights; z3 proves answer(history) == answer(fresh); bounded'
